@@ -18,7 +18,7 @@ def models(tier):
     out = []
     inb = [("accept",)]
     for c in (0,):
-        inb += [("m", c, n) for n in ("cer_p0", "cer_unknown", "cer_nocommon", "cer_crosskind", "cer_relay", "cer_vsa", "cer_vsa_acct", "cer_vsa_cross", "cer_nohost", "cer_badip", "dwr", "dwa", "dpr", "dpa", "req", "ans_unknown")]
+        inb += [("m", c, n) for n in ("cer_p0", "cer_v6p0", "cer_unknown", "cer_nocommon", "cer_crosskind", "cer_relay", "cer_vsa", "cer_vsa_acct", "cer_vsa_cross", "cer_nohost", "cer_badip", "dwr", "dwa", "dpr", "dpa", "req", "ans_unknown")]
         inb += [("b", c, "cer_unknown", "req"), ("b", c, "cer_p0", "req"), ("b", c, "cer_nocommon", "dwr"), ("b", c, "cer_nocommon", "req"),
                 ("b", c, "dwr", "cer_p0"), ("b", c, "cer_unknown", "dpr"), ("eof", c)]
     inb += [("tick", 1)]
